@@ -18,8 +18,11 @@ def main():
     env = dict(os.environ)
     env.pop('LOMOND_VERIF', None)
     try:
+        # BASELINE_NETNS=1: private network namespace (the integration tests bind 127.0.0.1:8080 with reuse_port, so suites
+        # running at the same time in other worktrees steal each other's connections)
+        pre = ['unshare', '-rn', 'sh', '-c', 'ip link set lo up; exec "$@"', 'sh'] if os.environ.get('BASELINE_NETNS') else []
         subprocess.run(
-            ['flock', '/tmp/lomond-suite.lock', '/venv/bin/python', '-m', 'pytest', '-ra', '-q', '-p', 'no:cacheprovider',
+            pre + ['flock', '/tmp/lomond-suite.lock', '/venv/bin/python', '-m', 'pytest', '-ra', '-q', '-p', 'no:cacheprovider',
              '--timeout=900', '--continue-on-collection-errors', '--junitxml=' + path],
             cwd=root, env=env, stdout=subprocess.DEVNULL, stderr=subprocess.DEVNULL)
         passed = set()
